@@ -14,6 +14,7 @@ Atoms
   GECKO_BLOCKS       number of 512-byte splitter blocks (assumption recorded)
   END, DOUBLE, GECKO, SOME(follower)   0/1 indicators
 Anything outside the recognised fragment raises Unsupported (fail closed)."""
+import linear
 import layout as L
 import tir
 from layout import Unsupported
@@ -268,7 +269,12 @@ class Writer:
                     if a["pat"].get("k") in ("Wild", "Bind"):
                         return self.run(a["body"], mult, w)
             # `match port.follower { true => 1, _ => 0 }` inside an argument: no writes
-            if not any(self.width_call(x) for x in tir.walk(n) if x.get("k") == "MethodCall"):
+            def may_write(x):
+                if x.get("k") == "MethodCall" and (self.width_call(x) or x["method"] in ("write_all", "write", "write_fmt")):
+                    return True
+                c_ = callee(x) or ""
+                return x.get("k") in ("Call", "MethodCall") and self.F.body(c_) is not None
+            if not any(may_write(x) for x in tir.walk(n) if x.get("k") in ("MethodCall", "Call")):
                 return Poly()
             raise Unsupported(n, "writer matches on a value outside the fragment")
         if k == "For":
@@ -426,12 +432,19 @@ class Writer:
         if c.get("k") == "MethodCall" and c["method"] == "map_or":
             r = tir.place(c["recv"]) or ""
             cl = strip(c["args"][1])
-            if r.endswith(".validity") and strip(c["args"][0]).get("v") is True and cl.get("k") == "Closure":
+            if r.endswith(".validity") and strip(c["args"][0]).get("lit") == "bool" and cl.get("k") == "Closure":
                 b = strip(cl["body"])
+                dflt = strip(c["args"][0]).get("v")
+                neg = False
+                if b.get("k") == "Unary" and b.get("op") == "Not":
+                    b, neg = strip(b["e"]), True
                 if b.get("k") == "MethodCall" and b["method"] == "get_bit":
                     rr = self.resolve(r) or r
                     who = rr.split(".")[-2] if rr.count(".") >= 1 else rr
-                    return Poly.atom("VALID(%s)" % who)
+                    if dflt is True and not neg:
+                        return Poly.atom("VALID(%s)" % who)            # no bitmap, or the bit is set
+                    if dflt is False and neg:
+                        return Poly.const(1) - Poly.atom("VALID(%s)" % who)    # a bitmap whose bit is clear
         return None
 
     def loop_count(self, n):
@@ -451,9 +464,28 @@ class Writer:
             return Poly.atom("N_TABLE")
         i = strip(n["iter"])
         if i.get("k") == "Struct" and (i.get("path") or "").endswith("ops::Range"):
-            f = {x["name"]: tir.pretty(x["e"]) for x in i["fields"]}
-            if f.get("start") == "(offset[idx] as usize)" and f.get("end") == "(offset[(idx Add 1)] as usize)":
-                return Poly.atom("ITEMS_PER_FRAME")
+            # offset[i] .. offset[i + 1] of one offsets column (casts and let-bound bounds looked through)
+            env = tir.LetEnv(self.bodies[-1]) if self.bodies else None
+            f = {x["name"]: x["e"] for x in i["fields"]}
+
+            def off_index(e):
+                e = env.resolve(e) if env else strip(e)
+                while e.get("k") == "Cast":
+                    e = strip(e["e"])
+                    e = env.resolve(e) if env else e
+                if e.get("k") == "Index":
+                    base = env.resolve(e["base"], peel=True) if env else strip(e["base"])
+                    return tir.place(strip(e["base"])) or tir.pretty(base)[:60], e["index"]
+                return None, None
+            b0, i0 = off_index(f.get("start") or {})
+            b1, i1 = off_index(f.get("end") or {})
+            if b0 is not None and b0 == b1:
+                try:
+                    d = linear.add(linear.lin(env.resolve(i1) if env else i1), linear.lin(env.resolve(i0) if env else i0), -1)
+                    if not [k_ for k_, v_ in d.items() if k_ and v_] and d.get("", 0) == 1:
+                        return Poly.atom("ITEMS_PER_FRAME")
+                except linear.NonLinear:
+                    pass
         if src.get("k") == "Struct" and (src.get("path") or "").endswith("ops::Range") and tir.lit_int({x["name"]: x["e"] for x in src["fields"]}.get("start") or {}) == 0:
             # 0..n with n a small selection on the double-Game-End quirk: `if double { 2 } else { 1 }` in any spelling
             end = {x["name"]: x["e"] for x in src["fields"]}.get("end")
